@@ -42,7 +42,7 @@ PROPS = {
     "C13": dict(module="ERP.Properties.C13", suites=["plugin"], oracle="plugin", theorems=[]),
     "C14": dict(module="ERP.Properties.C14", suites=["filter", "plugin"], oracle="filter", theorems=[]),
     "C15": dict(module="ERP.Properties.C15", suites=["plugin"], oracle="plugin", theorems=[]),
-    "C16": dict(module="ERP.Properties.C16", suites=["arc"], oracle="c16", theorems=[]),
+    "C16": dict(module="ERP.Properties.C16", suites=["arc", "filter"], oracle="c16", theorems=[]),
     "C17": dict(module="ERP.Properties.C17", suites=["region"], oracle="c17",
                 theorems=["ERP.C17.rect_contains_iff", "ERP.C17.rect_corner_order",
                           "ERP.C17.circle_contains_iff", "ERP.C17.containsRegion_sound"]),
